@@ -17,6 +17,8 @@ def g_frame_canary():
 
 
 def plan(tier, seed):
+    from .. import verify as V
+    V.CFG['dtype'] = True          # the dtype ghost stands in for the former syntactic "reads the global default dtype" rule
     dense = tier != 'quick'
     gs = []
     T1, T2d = 'dwt.transform1d', 'dwt.transform2d'
